@@ -28,10 +28,16 @@ import (
 )
 
 var (
-	verifDir = "/verif"
+	verifDir = "/verif" // VERIF_DIR overrides it (set by ./check to its own directory: a snapshot of /verif runs itself)
 	repoDir  = "/repo"
 	goCmd    = "go1.26.8"
 )
+
+func init() {
+	if d := os.Getenv("VERIF_DIR"); d != "" {
+		verifDir = d
+	}
+}
 
 type meta struct {
 	Level       string   `json:"level"`
